@@ -308,12 +308,14 @@ type c10Replay struct {
 	Choices []int     `json:"choices,omitempty"`
 }
 
+var c10PairInfo []string
+
 func c10Report(hist []TopoEv, t *SendTest, w *c10World, x *vrt.Exec, extra string) {
 	hs := make([]string, len(hist))
 	for i, e := range hist {
 		hs[i] = e.String()
 	}
-	rp := c10Replay{History: hist, Test: t, Choices: append([]int{}, x.Choices()...)}
+	rp := c10Replay{History: hist, Test: t, Choices: append([]int{}, x.Choices()...), Pair: c10PairInfo}
 	desc := strings.Join(hs, " ")
 	if t != nil {
 		desc += " then " + t.String()
@@ -464,6 +466,7 @@ func modeC10() {
 						break
 					}
 					var w *c10World
+					c10PairInfo = []string{fmt.Sprint(a), fmt.Sprint(b), second}
 					ex := &vrt.Explorer{Cfg: boxCfg(), Bound: pairBound, Deadline: deadline, Root: func() {
 						w = c10Build(nd.hist)
 						w.runPair(a, b, second)
@@ -474,11 +477,18 @@ func modeC10() {
 						return true
 					}
 					ex.Run()
+					if !ex.Complete {
+						cut = true
+					}
+					for _, d := range ex.Divergence {
+						res.InfraError("pair %d/%d %s: replay divergence %s", a, b, second, d)
+					}
 					trans += ex.Execs
 				}
 			}
 		}
 	}
+	c10PairInfo = nil
 	res.EvalN(pairExecs)
 	res.Extra["concurrent_pair_executions"] = float64(pairExecs)
 	res.States = states
